@@ -212,11 +212,33 @@ class Model(object):
         return res
 
 
-def in_coq_eval(requests, timeout=600):
-    """Evaluate the same requests INSIDE Coq (vm_compute), to watch the extraction step.
-    Returns list of sx strings, obtained by printing through a Coq-side serialiser is avoided:
-    instead we ask Coq to compare against the expected answers and return booleans."""
-    raise NotImplementedError
+def _coq_sx(v):
+    """python value -> Gallina literal of type Sx.sx"""
+    if v is True:
+        return "(A 1)"
+    if v is False:
+        return "(A 0)"
+    if v is None:
+        return "(L [])"
+    if isinstance(v, int):
+        return "(A %d)" % v
+    if isinstance(v, (bytes, bytearray)):
+        return "(B [%s])" % ";".join("x%02x" % b for b in bytearray(v))
+    return "(L [%s])" % ";".join(_coq_sx(x) for x in v)
+
+
+def in_coq_eval(requests, answers, tag, timeout=300):
+    """Watch the extraction step: evaluate the same requests INSIDE Coq (vm_compute on Model.Main.run_sx) and let the
+    kernel compare with the answers the extracted binary gave.  Returns (ok, log)."""
+    d = os.path.join(BUILD, "incoq")
+    os.makedirs(d, exist_ok=True)
+    path = os.path.join(d, "cases_%s.v" % tag)
+    with open(path, "w") as f:
+        f.write("From Coq Require Import List NArith.\nFrom Coq.Strings Require Import Byte.\nFrom Model Require Import Bytes Sx Main.\nImport ListNotations.\nOpen Scope N_scope.\n")
+        for i, (r, a) in enumerate(zip(requests, answers)):
+            f.write("Example e%d : run_sx %s = %s.\nProof. vm_compute. reflexivity. Qed.\n" % (i, _coq_sx(r), _coq_sx(a)))
+    rc, out = sh(["coqc", "-Q", os.path.join(COQ, "model"), "Model", "-Q", d, "InCoq", path], timeout=timeout, cwd=d)
+    return rc == 0, out[-2000:]
 
 
 # ---------------------------------------------------------------- reporting
@@ -287,6 +309,17 @@ class Report(object):
             self.obligations.append((n, ok, assum[i] if i < len(assum) else ("" if ok else "not checked")))
         if not names:
             self.obligations.append((prop_rel, ok, ""))
+        if ok and self.tier == "thorough":
+            # independent re-check of the compiled property file and everything it depends on
+            mod = "Props." + os.path.basename(prop_rel)[:-2]
+            rc, out2 = sh(["coqchk", "-o", "-silent", "-Q", "gen", "Gen", "-Q", "model", "Model", "-Q", "proofs", "Proofs", "-Q", "props", "Props", mod],
+                          cwd=COQ, timeout=1800)
+            tail = out2[-1500:]
+            self.notes.append("coqchk -o %s: rc=%d; %s" % (mod, rc, tail.replace("\n", " | ")))
+            self.checker_cmd += " ; thorough: coqchk -o " + mod
+            if rc != 0:
+                ok = False
+                self.broken("coqchk rejected %s: %s" % (mod, tail))
         if not ok:
             bad = [f for f in info.failed_files]
             # which error message
@@ -295,6 +328,19 @@ class Report(object):
         else:
             self.coq_failure = None
         return ok
+
+    def watch_extraction(self, model, requests, limit=12, max_bytes=4000):
+        """a sample of this run's model requests is re-evaluated inside Coq and compared with the binary's answers"""
+        if model is None or not requests:
+            return
+        small = [r for r in requests if len(sx.dumps(r)) <= max_bytes][:limit]
+        if not small:
+            return
+        answers = model.run(small)
+        ok, log = in_coq_eval(small, answers, self.pid)
+        self.notes.append("extraction watch: %d requests evaluated inside Coq by vm_compute and compared with the extracted binary's answers: %s" % (len(small), "equal" if ok else "DIFFERENT"))
+        if not ok:
+            self.broken("the extracted model binary and the in-Coq evaluation of Model.Main.run_sx disagree (extraction or driver problem): " + log[-600:])
 
     # -- finish
     def finish(self):
